@@ -30,6 +30,17 @@ RULEDOC = {"title": "t", "level": "high", "tags": ["attack.t1234"], "logsource":
 ITEMS = [("sel", "fieldA", ["valueA"]), ("sel", "fieldB", ["x*", "y"]), ("sel", "fieldC", [None]), ("sel", "fieldD", [1, "x1"]),
          ("flt", "fieldA", ["other"]), ("flt", "fieldE", ["*w*"])]
 
+# the drop probe runs on a rule that also has field references: a field-name condition holds on a detection item when it
+# holds for the item's field OR for a field referenced in its values (FieldNameProcessingCondition.match_detection_item)
+RULEDOC_REF = copy.deepcopy(RULEDOC)
+RULEDOC_REF["detection"]["sel"]["fieldF|fieldref"] = "fieldA"
+RULEDOC_REF["detection"]["sel"]["fieldG|fieldref"] = "fieldZ"
+ITEMS_REF = ITEMS[:4] + [("sel", "fieldF", []), ("sel", "fieldG", [])] + ITEMS[4:]
+REFS = {"fieldF": ["fieldA"], "fieldG": ["fieldZ"]}
+# a rule converted BEFORE the probed one with the same pipeline object: nothing of it may remain visible
+PRIOR_DOC = {"title": "prior", "level": "low", "tags": [], "logsource": {"category": "zzz", "product": "other"},
+             "detection": {"s": {"fieldB": "q", "fieldQ": 2}, "condition": "s"}}
+
 RULE_CONDS = [
     {"type": "logsource", "category": "cat"}, {"type": "logsource", "category": "newcat"}, {"type": "logsource", "product": "prod", "service": "svc"},
     {"type": "contains_field", "field": "fieldB"}, {"type": "contains_field", "field": "mappedB"}, {"type": "contains_field", "field": "nope"},
@@ -94,7 +105,15 @@ def gen_cases(tier, seed, gen, effort):
     for _ in range((2500 if not thorough else 40000) * effort):
         pre = {"state": rnd.random() < 0.7, "state_cond": rnd.choice([None, {"type": "logsource", "category": "cat"}, {"type": "logsource", "category": "zzz"}]),
                "map": rnd.random() < 0.7, "logsrc": rnd.random() < 0.4, "n5": rnd.random() < 0.3}
-        cases.append({"pre": pre, "rule": gen_group(rnd, RULE_CONDS), "det": gen_group(rnd, DET_CONDS), "field": gen_group(rnd, FIELD_CONDS)})
+        c = {"pre": pre, "rule": gen_group(rnd, RULE_CONDS), "det": gen_group(rnd, DET_CONDS), "field": gen_group(rnd, FIELD_CONDS)}
+        r = rnd.random()
+        if r < 0.25:
+            c["prior"] = True                      # the pipeline object converted another rule first
+        elif r < 0.45:
+            c["probe"] = "drop"                    # item-level marker on a rule with field references
+            c["det"] = {"conds": [], "neg": False, "link": None}
+            c["prior"] = rnd.random() < 0.3
+        cases.append(c)
     return cases, False
 
 
@@ -124,7 +143,7 @@ def pipeline_dict(case):
         ts.append({"id": "map", "type": "field_name_mapping", "mapping": {"fieldB": "mappedB"}})
     if pre["logsrc"]:
         ts.append({"id": "ls", "type": "change_logsource", "category": "newcat"})
-    probe = {"id": "probe", "type": "field_name_suffix", "suffix": "_X"}
+    probe = {"id": "probe", "type": "field_name_suffix", "suffix": "_X"} if case.get("probe") != "drop" else {"id": "probe", "type": "drop_detection_item"}
     group_yaml("rule", case["rule"], probe)
     group_yaml("detection_item", case["det"], probe)
     group_yaml("field_name", case["field"], probe)
@@ -141,7 +160,9 @@ def run_impl(case):
     except Exception as e:
         return {"outcome": outcome_of_exception(e), "stage": "load", "msg": str(e)[:160]}
     try:
-        rule = SigmaRule.from_dict(copy.deepcopy(RULEDOC))
+        if case.get("prior"):
+            pl.apply(SigmaRule.from_dict(copy.deepcopy(PRIOR_DOC)))
+        rule = SigmaRule.from_dict(copy.deepcopy(RULEDOC_REF if case.get("probe") == "drop" else RULEDOC))
         pl.apply(rule)
         out = []
 
@@ -152,8 +173,9 @@ def run_impl(case):
                 else:
                     out.append(it.field)
         walk(rule.detection.detections["sel"])
+        nsel = len(out)
         walk(rule.detection.detections["flt"])
-        return {"outcome": "ok", "fields": out, "applied": sorted(pl.applied_ids)}
+        return {"outcome": "ok", "fields": out, "sel": out[:nsel], "flt": out[nsel:], "applied": sorted(pl.applied_ids)}
     except Exception as e:
         return {"outcome": outcome_of_exception(e), "stage": "apply", "msg": str(e)[:160]}
 
@@ -163,7 +185,8 @@ def world(case):
     """state of the rule when the probe runs, from the documented effect of the pre-items"""
     pre = case["pre"]
     w = {"state": {}, "applied": set(), "category": "cat", "product": "prod", "service": None,
-         "items": [{"det": d, "field": f, "values": v, "by": set()} for d, f, v in ITEMS]}
+         "items": [{"det": d, "field": f, "values": v, "by": set(), "refs": list(REFS.get(f, []))}
+                   for d, f, v in (ITEMS_REF if case.get("probe") == "drop" else ITEMS)]}
     if pre["state"]:
         c = pre["state_cond"]
         if c is None or c.get("category") == "cat":
@@ -241,11 +264,13 @@ def det_cond(w, it, c):
 def field_cond(w, it, c):
     t = c["type"]
     if t in ("include_fields", "exclude_fields"):
-        if c.get("mode") == "re":
-            r = any(re.match(p, it["field"]) for p in c["fields"])
-        else:
-            r = it["field"] in c["fields"]
-        return r if t == "include_fields" else not r
+        def on(name):
+            if c.get("mode") == "re":
+                r = any(re.match(p, name) for p in c["fields"])
+            else:
+                r = name in c["fields"]
+            return r if t == "include_fields" else not r
+        return on(it["field"]) or any(on(x) for x in it.get("refs", []))
     if t == "processing_state":
         return state_cond(w, c)
     raise KeyError(t)
@@ -273,10 +298,10 @@ def make_request(case, impl, gen):
 
 def judge(case, impl, reply):
     io = impl["outcome"]
-    key = (case["pre"], case["rule"], case["det"], case["field"])
+    key = (case["pre"], case["rule"], case["det"], case["field"], case.get("probe"), case.get("prior"))
     nconds = sum(len(case[k]["conds"]) for k in ("rule", "det", "field"))
     nt = nconds >= 1
-    tags = [f"impl:{io.split(':')[0]}", f"conds:{nconds}"] + [f"{k}:{'expr' if 'expr' in case[k] else case[k]['link']}/{len(case[k]['conds'])}/{'neg' if case[k]['neg'] else 'pos'}" for k in ("rule", "det", "field")]
+    tags = [f"impl:{io.split(':')[0]}", f"conds:{nconds}", f"probe:{case.get('probe', 'suffix')}", f"prior:{bool(case.get('prior'))}"] + [f"{k}:{'expr' if 'expr' in case[k] else case[k]['link']}/{len(case[k]['conds'])}/{'neg' if case[k]['neg'] else 'pos'}" for k in ("rule", "det", "field")]
     if io.startswith("other:"):
         return Verdict("violation", f"{io} at {impl.get('stage')}: {impl.get('msg')} for pipeline {pipeline_dict(case)}", nt, key, tags=tuple(tags))
     if reply.get("exprError"):
@@ -286,14 +311,18 @@ def judge(case, impl, reply):
     if io.startswith("sigma:"):
         return Verdict("violation", f"valid pipeline rejected at {impl.get('stage')}: {io} {impl.get('msg')} :: {pipeline_dict(case)['transformations'][-1]}", nt, key, tags=tuple(tags))
     w = world(case)
-    got = [f.endswith("_X") for f in impl["fields"]]
+    if case.get("probe") == "drop":
+        got = [it["field"] not in impl[it["det"]] for it in w["items"]]
+    else:
+        got = [f.endswith("_X") for f in impl["fields"]]
     want = reply["onDet"]
     if got != want:
         i = next(k for k, (a, b) in enumerate(zip(got, want)) if a != b)
         it = w["items"][i]
         return Verdict("violation", (f"probe {pipeline_dict(case)['transformations'][-1]} {'acted on' if got[i] else 'did not act on'} detection item "
                                      f"{it['det']}.{it['field']} = {it['values']} although its conditions evaluate to {want[i]} there "
-                                     f"(pre-items: {case['pre']})"), nt, key, tags=tuple(tags))
+                                     f"(pre-items: {case['pre']}{'; the pipeline object converted another rule (log source category zzz) first' if case.get('prior') else ''})"),
+                       nt, key, tags=tuple(tags))
     if ("probe" in impl["applied"]) != reply["onRule"]:
         return Verdict("violation", f"probe recorded as applied={'probe' in impl['applied']} but its rule conditions evaluate to {reply['onRule']}: {pipeline_dict(case)['transformations'][-1]}", nt, key, tags=tuple(tags))
     return Verdict("ok", "", nt, key, tags=tuple(tags))
